@@ -491,8 +491,9 @@ class Variable(BaseModel, Serializable):
         d = {}
         for key, value in self.__dict__.items():
             if value is not None and not key.startswith('_'):
-                if key == 'domain':
-                    d[key] = [str(v) for v in value] if isinstance(value, list) else str(value)
+                if key == 'domain':  # plain floats: str() of numpy scalars ('np.float64(1.0)') cannot be read back
+                    d[key] = ([str(tuple(map(float, v))) for v in value] if isinstance(value, list)
+                              else str(tuple(map(float, value))))
                 elif key == 'distribution':
                     d[key] = str(value)
                 elif key == 'norm':
